@@ -34,6 +34,9 @@ type recordingBackend struct {
 	OnHTTP func(rw http.ResponseWriter, r *http.Request)
 	// Pre, if set, may answer any request (including websocket handshakes) itself.
 	Pre func(rw http.ResponseWriter, r *http.Request) bool
+	// Delay, if set, makes the backend wait before it looks at a request (a slow
+	// websocket handshake, for instance).
+	Delay func(r *http.Request) time.Duration
 }
 
 func startRecordingBackend(w *World) *recordingBackend {
@@ -53,7 +56,13 @@ func startRecordingBackend(w *World) *recordingBackend {
 			rb.mu.Lock()
 			rb.Seen = append(rb.Seen, seenReq{Token: tok, Header: r.Header.Clone(), WS: isWS, Path: r.URL.RequestURI()})
 			pre := rb.Pre
+			delay := rb.Delay
 			rb.mu.Unlock()
+			if delay != nil {
+				if d := delay(r); d > 0 {
+					time.Sleep(d)
+				}
+			}
 			if pre != nil && pre(rw, r) {
 				return
 			}
@@ -102,12 +111,13 @@ func worldC09(w *World) {
 		auth       []string
 		authName   string
 		ws         bool
+		connNamed  bool
 	}
 	reqs := make([]*creq, n)
 	fp := NewFakeProxy(w)
 	var ids []string
 	for i := range reqs {
-		c := &creq{id: fmt.Sprintf("r%02d", i), user: fmt.Sprintf("user%d@example.com", t.Choice(3, "user"))}
+		c := &creq{id: fmt.Sprintf("r%02d", i), user: []string{"user0@example.com", "user1@example.com", "user2@example.com", "dev+oncall@example.com", "svc%2Bbatch@example.com", "accounts.example.com:1234%20x"}[t.Choice(6, "user")]}
 		c.forgedName = []string{"X-Inverting-Proxy-User-ID", "x-inverting-proxy-user-id", "X-INVERTING-PROXY-USER-ID", "X-Inverting-Proxy-User-Id"}[t.Choice(4, "forgedname")]
 		switch t.Pick("forged", 2, 3, 2) {
 		case 1:
@@ -131,6 +141,17 @@ func worldC09(w *World) {
 			hdr = append(hdr, c.authName+": "+v)
 		}
 		hdr = append(hdr, "X-Token: "+c.id)
+		// the client may declare the very headers the backend trusts as hop-by-hop
+		switch t.Pick("connection", 5, 1, 1, 1) {
+		case 1:
+			hdr = append(hdr, "Connection: "+c.forgedName)
+			c.connNamed = true
+		case 2:
+			hdr = append(hdr, "Connection: keep-alive, x-inverting-proxy-user-id, X-Token-Other")
+			c.connNamed = true
+		case 3:
+			hdr = append(hdr, "Connection: "+c.authName)
+		}
 		var raw string
 		if c.ws {
 			body := "ws://example.test/socket?t=" + c.id
@@ -239,6 +260,12 @@ func worldC09(w *World) {
 			}
 			if len(c.forgedUser) > 0 && forward {
 				w.Probe("forged_user_id_with_forwarding")
+			}
+			if c.connNamed && forward {
+				w.Probe("user_id_named_hop_by_hop_by_client")
+			}
+			if strings.ContainsAny(c.user, "+%") && forward {
+				w.Probe("identity_with_escapes")
 			}
 			if len(c.auth) > 0 && strip {
 				w.Probe("authorization_with_stripping")
